@@ -120,6 +120,7 @@ func genC19World(src *choice.Src) *World {
 		w.Env["GOARCH"], w.Env["GOOS"], w.Env["GOROOT"], w.Env["DOLLAR"] = "amd64", "linux", "/usr/lib/go", "$"
 	}
 	w.NoGo = src.Chance("nogo", 1, 4)
+	w.StrayConfigs = src.Chance("strayconfigs", 1, 5)
 	if src.Chance("linked", 1, 6) {
 		// some of the configuration files are symbolic links to files with the same bytes
 		for i := range w.Files {
@@ -290,6 +291,21 @@ func CheckC19(t Target, src *choice.Src, st *Stats) *Violation {
 	}
 	// whatever variable the run looked at is not part of the self-configuration: set every one of them
 	// and regenerate again
+	if len(w.Faults) == 0 && len(w.Peers) == 0 && !w.HasFlag("--quiet") && src.Chance("brokenstdout", 1, 6) {
+		// the report cannot be written (`make self-compile > /dev/full`): whatever the tool does about that,
+		// a status of 0 still means that the file is the regenerated wiring
+		bw := w.Clone()
+		bw.StdoutFailFrom = 1 + src.Draw("brokenstdout.from", 3)
+		br := Exec(t, bw)
+		if st != nil {
+			st.note(bw, br)
+			st.Probes["regenerates-with-a-broken-report-stream"]++
+		}
+		if br.Exit == 0 && stripVersion(br.Out.Data) != selfRef {
+			return &Violation{Property: "C19", Sig: "exit0-without-regenerating:broken-report-stream", Detail: "with a report stream that rejects writes the regenerate exited 0, but the file is not the regenerated source\n" + firstDiff(selfRef, stripVersion(br.Out.Data)),
+				Worlds: []*World{bw}, Mode: "c19", Expect: []string{digest(br)}}
+		}
+	}
 	if len(w.Faults) == 0 && len(w.Peers) == 0 {
 		var reads []string
 		seen := map[string]bool{}
@@ -342,6 +358,12 @@ func judgeC19(w *World, r *Result) *Violation {
 		}
 		if r.Exit == 0 && stripVersion(r.Out.Data) != selfRef {
 			return mk("regenerate-with-write-fault-left-a-wrong-file", "a write-path fault was survived (exit 0) but the file is not the regenerated source\n"+firstDiff(selfRef, stripVersion(r.Out.Data)))
+		}
+		return nil
+	}
+	if w.StdoutFailFrom > 0 {
+		if r.Exit == 0 && stripVersion(r.Out.Data) != selfRef {
+			return mk("exit0-without-regenerating:broken-report-stream", "with a report stream that rejects writes the regenerate exited 0, but the file is not the regenerated source\n"+firstDiff(selfRef, stripVersion(r.Out.Data)))
 		}
 		return nil
 	}
